@@ -246,7 +246,7 @@ impl Property for C11 {
                         // a name that is a variable for the scope rule but is never assigned on
                         // the executed path (its `let` sits in a while body that did not run) is
                         // a run-time condition (C10), not a mismatch between test and list
-                        RealItem::RuntimeErr(m) if m.contains("has not been assigned a value") => {
+                        RealItem::RuntimeErr(_) if !crate::model::names_let_in_while(&built.prog).is_empty() => {
                             out.class("unassigned-variable-at-runtime");
                             break;
                         }
